@@ -5,12 +5,12 @@ namespace Ffcx.LNodes
 
 inductive DType where
   | real | scalar | int | bool | none
-  deriving DecidableEq, Repr, Inhabited, BEq
+  deriving DecidableEq, Repr, Inhabited
 
 /-- All `BinOp` subclasses that can occur inside an expression. -/
 inductive BinOp where
   | add | sub | mul | div | eq | ne | lt | gt | le | ge | and | or
-  deriving DecidableEq, Repr, Inhabited, BEq
+  deriving DecidableEq, Repr, Inhabited
 
 inductive Expr where
   /-- `LiteralFloat`: exact value of the Python float (`re`), or of the complex (`re`,`im`) -/
